@@ -29,7 +29,7 @@ type c06Suite struct{}
 
 func init() { register("c06", c06Suite{}) }
 
-var c06Kinds = []string{"fresh", "translator", "cross", "keywords", "case", "swap", "probe"}
+var c06Kinds = []string{"fresh", "translator", "cross", "keywords", "case", "swap", "probe", "sys"}
 
 var c06GenIDAnywhere = regexp.MustCompile(`\b(n|e|s|i|pi|ep|pc|ex)[0-9]+\b`)
 
@@ -249,18 +249,40 @@ func (c06Suite) Gen(rng *Rng, tier string, w *bufio.Writer, stats *Stats) {
 		reps = 4
 		ngen = 6000
 	}
+	// kind "sys": seed 0 = quick candidate set, 1 = every identifier of the translation (thorough); once per query
+	sysMode := uint64(0)
+	if tier == "thorough" {
+		sysMode = 1
+	}
 	for _, c := range corpus {
 		for _, k := range c06Kinds {
 			for r := 0; r < reps; r++ {
+				if k == "sys" {
+					if r == 0 {
+						emit("corpus:"+c.Source, k, sysMode, c.Query, c.Params)
+						stats.Inc("corpus_cases_gen")
+					}
+					continue
+				}
 				emit("corpus:"+c.Source, k, rng.Next()%1000000, c.Query, c.Params)
 				stats.Inc("corpus_cases_gen")
 			}
 		}
 	}
+	for _, q := range c06SysQueries {
+		emit("sys-shapes", "sys", 1, q, nil)
+	}
 	for i := 0; i < ngen; i++ {
 		q := genCypherQuery(rng)
 		for _, k := range c06Kinds {
-			emit("gen", k, rng.Next()%1000000, q, nil)
+			if k == "sys" {
+				// generated queries always use the quick candidate set; thorough runs it on every third query
+				if tier != "thorough" || i%3 == 0 {
+					emit("gen", k, 0, q, nil)
+				}
+			} else {
+				emit("gen", k, rng.Next()%1000000, q, nil)
+			}
 			stats.Inc("generated_cases_gen")
 		}
 	}
@@ -375,6 +397,230 @@ func (r *c06Runner) runPair(q string, params map[string]any, rv, rp map[string]s
 		r.trace = c06TraceOff()
 	}
 	return c06Pair{a, b}, true
+}
+
+// ---------------------------------------------------------------- systematic renamings onto generated identifiers
+
+// shapes in which a variable is re-aliased and the alias is used afterwards (every position gets every identifier)
+var c06SysQueries = []string{
+	"MATCH (a) WITH a AS x RETURN x.name",
+	"MATCH (a)-[r]->(b) WITH r AS x RETURN type(x)",
+	"MATCH (a)-[r]->(b) WITH b AS x MATCH (x)-[q]->(c) RETURN c.name",
+	"MATCH (a)-[r]->(b) WITH a AS x, b AS y MATCH (x)-[q]->(c)<-[t]-(y) RETURN c",
+	"MATCH (a) WITH a AS x WITH x AS y RETURN y.name AS z ORDER BY z",
+	"MATCH p = (a)-[r*1..2]->(b) WITH p AS x, b AS y RETURN length(x), y.name",
+	"MATCH (a) WHERE a.name = $p WITH a AS x WHERE x.value = $q RETURN x AS out",
+	"UNWIND [1, 2] AS i WITH i AS x RETURN x AS y",
+	"MATCH (a) WITH a.name AS x WHERE x = 'a' RETURN x AS y ORDER BY y",
+	"MATCH (a) WHERE any(e IN a.arr WHERE e = 1) WITH a AS x RETURN x",
+	"MATCH (a)-[r]->(b) WITH a AS x, count(b) AS c RETURN x.name, c",
+	"MATCH (a) OPTIONAL MATCH (a)-[r]->(b) WITH a AS x, b AS y RETURN x, y",
+}
+
+var (
+	c06TraceAliasRe  = regexp.MustCompile(`\((alias|aliasParameter) \d+ ("(?:[^"\\]|\\.)*") "([^"]*)"`)
+	c06TraceDefineRe = regexp.MustCompile(`\(define \d+ "([^"]*)"`)
+	c06GenSplitRe    = regexp.MustCompile(`^(n|e|s|i|pi|ep|pc|ex)([0-9]+)$`)
+)
+
+// systematic translates q once (with the scope trace when the hook is there), reads off which generated identifier
+// every user variable / alias / parameter received, and renames (a) each symbol alone and (b) all symbols at once to
+// (i) its OWN generated identifier, (ii) the generated identifier of every OTHER binding, (iii) identifiers the
+// translation generates later / would generate next. Returns the first failing renaming (one of an unknown class if
+// there is any) and the number of renamings tried.
+func (r *c06Runner) systematic(q string, params map[string]any, full bool) (frv, frp map[string]string, n int) {
+	m, err, pp := parseQuery(q)
+	if err != nil || pp != "" {
+		return nil, nil, 0
+	}
+	vars, prms := userSymbols(m)
+	fullParams := defaultParams(prms, params)
+	c06TraceOn()
+	a := translateOutcome(cypher.Copy(m), r.mapper, fullParams)
+	trace := c06TraceOff()
+	if a.Status != "ok" || len(vars)+len(prms) == 0 {
+		return nil, nil, 0
+	}
+	ownV, ownP := map[string][]string{}, map[string][]string{}
+	var defined, userBound []string
+	seen := map[string]bool{}
+	if trace != "-" {
+		for _, mm := range c06TraceAliasRe.FindAllStringSubmatch(trace, -1) {
+			key, ok := jsonUnquote(mm[2])
+			if !ok {
+				continue
+			}
+			if mm[1] == "alias" {
+				ownV[key] = append(ownV[key], mm[3])
+			} else {
+				ownP[key] = append(ownP[key], mm[3])
+			}
+			userBound = append(userBound, mm[3])
+		}
+		for _, mm := range c06TraceDefineRe.FindAllStringSubmatch(trace, -1) {
+			if !seen[mm[1]] {
+				seen[mm[1]] = true
+				defined = append(defined, mm[1])
+			}
+		}
+	} else {
+		for _, g := range c06GenIDAnywhere.FindAllString(a.RawSQL, -1) {
+			if !seen[g] {
+				seen[g] = true
+				defined = append(defined, g)
+			}
+		}
+		userBound = defined
+	}
+	// next counter values per prefix class
+	maxIdx := map[string]int{}
+	for _, pfx := range []string{"n", "e", "s", "i", "pi", "ep", "pc", "ex"} {
+		maxIdx[pfx] = -1
+	}
+	for _, d := range defined {
+		if mm := c06GenSplitRe.FindStringSubmatch(d); mm != nil {
+			var k int
+			fmt.Sscan(mm[2], &k)
+			if k > maxIdx[mm[1]] {
+				maxIdx[mm[1]] = k
+			}
+		}
+	}
+	var later []string
+	for _, pfx := range []string{"n", "e", "s", "i", "pi", "ep", "pc", "ex"} {
+		later = append(later, fmt.Sprintf("%s%d", pfx, maxIdx[pfx]+1))
+		if full {
+			later = append(later, fmt.Sprintf("%s%d", pfx, maxIdx[pfx]+2))
+		}
+	}
+	cands := func(own []string) []string {
+		var out []string
+		add := func(xs []string) {
+			for _, x := range xs {
+				dup := false
+				for _, y := range out {
+					dup = dup || x == y
+				}
+				if !dup {
+					out = append(out, x)
+				}
+			}
+		}
+		add(own)
+		if full {
+			add(defined)
+		} else {
+			add(userBound)
+		}
+		add(later)
+		return out
+	}
+	isVar, isPrm := map[string]bool{}, map[string]bool{}
+	for _, v := range vars {
+		isVar[v] = true
+	}
+	for _, p := range prms {
+		isPrm[p] = true
+	}
+	var knownRV, knownRP map[string]string
+	try := func(rv, rp map[string]string) bool { // true = stop: failure of an unknown class
+		// injective inside each namespace, including the symbols that keep their spelling
+		for ns, mp := range []map[string]string{rv, rp} {
+			names := vars
+			if ns == 1 {
+				names = prms
+			}
+			target := map[string]bool{}
+			for _, s := range names {
+				t := s
+				if nn, ok := mp[s]; ok {
+					t = nn
+				}
+				if target[t] {
+					return false
+				}
+				target[t] = true
+			}
+		}
+		n++
+		m1 := cypher.Copy(m)
+		renameSymbols(m1, rv, rp)
+		b := translateOutcome(m1, r.mapper, renameParamMap(fullParams, rp))
+		if c, _ := c06Compare(a, b, rp); c == "ok" {
+			return false
+		}
+		cls, _, _, _, _, _, _, _ := r.check(q, params, rv, rp, "explicit", 0)
+		switch cls {
+		case "ok", "untranslatable":
+			return false
+		case "gen-id-captured-by-path-variable", "ns-collision":
+			if knownRV == nil {
+				knownRV, knownRP = rv, rp
+			}
+			return false
+		}
+		if strings.HasPrefix(cls, "user-name-in-inner-sql") {
+			if knownRV == nil {
+				knownRV, knownRP = rv, rp
+			}
+			return false
+		}
+		frv, frp = rv, rp
+		return true
+	}
+	// (a) one position at a time
+	for _, v := range vars {
+		for _, c := range cands(ownV[v]) {
+			if c != v && try(map[string]string{v: c}, map[string]string{}) {
+				return
+			}
+		}
+	}
+	for _, p := range prms {
+		for _, c := range cands(ownP[p]) {
+			if c != p && try(map[string]string{}, map[string]string{p: c}) {
+				return
+			}
+		}
+	}
+	// (b) all positions at once: own first id, own last id, the next symbol's id, later ids
+	pick := func(own map[string][]string, names []string, how int) map[string]string {
+		mp := map[string]string{}
+		for i, s := range names {
+			switch how {
+			case 0:
+				if len(own[s]) > 0 {
+					mp[s] = own[s][0]
+				}
+			case 1:
+				if len(own[s]) > 0 {
+					mp[s] = own[s][len(own[s])-1]
+				}
+			case 2:
+				if o := own[names[(i+1)%len(names)]]; len(o) > 0 {
+					mp[s] = o[0]
+				}
+			default:
+				pfx := "n"
+				if len(own[s]) > 0 {
+					if mm := c06GenSplitRe.FindStringSubmatch(own[s][0]); mm != nil {
+						pfx = mm[1]
+					}
+				}
+				mp[s] = fmt.Sprintf("%s%d", pfx, maxIdx[pfx]+1+i)
+			}
+		}
+		return mp
+	}
+	for how := 0; how < 4; how++ {
+		if try(pick(ownV, vars, how), pick(ownP, prms, how)) {
+			return
+		}
+	}
+	if knownRV != nil {
+		return knownRV, knownRP, n
+	}
+	return nil, nil, n
 }
 
 // check runs one (query, renaming) pair and classifies it, including the de-collision test that isolates
@@ -539,6 +785,17 @@ func (r *c06Runner) Step(t []string, raw string) string {
 		r.side = "a"
 	case "translator", "probe", "explicit":
 		r.side = "b"
+	}
+	if kind == "sys" {
+		// systematic renamings onto the identifiers THIS translation generates; a failing one is then handled like an
+		// explicit renaming (classified, minimised, reported with its maps); otherwise the identity pair is reported
+		frv, frp, n := r.systematic(q, params, seed != 0)
+		r.stats.Add("sys_renamings", int64(n))
+		rvIn, rpIn = map[string]string{}, map[string]string{}
+		if frv != nil {
+			rvIn, rpIn = frv, frp
+		}
+		r.side = "a"
 	}
 	cls, detail, pair, vars, prms, rv, rp, coll := r.check(q, params, rvIn, rpIn, kind, seed)
 	if cls == "parse" {
